@@ -13,20 +13,24 @@
      Client.Sync() request / RemoteSync              -> ev SyncReq / SyncServe
      connection drop + RemoteHello + HandshakeDone   -> ev Hello
 
+   The model follows /repo after the repairs 86fb806 (RemoteUpdate requests a
+   Sync when a pushed diff is rejected), 4b9897e (RemoteUpdateMutations does
+   the same from a goroutine instead of inside the blocking read loop),
+   ca3c269 (pushClient skips NewServer's placeholder dataLatest), 8ad26fe
+   (pushUpdateLatest also sends diffs without indexes) and e5ad5bb
+   (DataQueue flushes dataQueue). One-line notes "old code:" say how the
+   unrepaired behaviour was modelled.
+
    Quirks kept on purpose (each is visible to the correspondence check):
-     - pushUpdateLatest sends nothing when Indexes is empty, yet pushClient
-       still does storeLastPush(data);
-     - sourceTracer.DataQueue() nils dataLatest and never flushes dataQueue;
-     - RemoteUpdate ignores clockUpdate's result; RemoteUpdateMutations calls
-       Sync() from inside the blocking rpc2 read loop (the response can never
-       be read: the read loop is dead from then on, [cl_stuck]);
-     - the mutation-reply path requests a full Sync on a mismatch;
-     - RemoteSync returns the unfiltered Source.Time, no machine tick, and
-       does not touch lastPushData; Client.Sync refuses a time slice whose
-       length differs from the client's state count;
+     - RemoteSync returns the unfiltered Source.Time and does not touch
+       lastPushData; Client.Sync refuses a time slice whose length differs
+       from the client's state count ("wrong clock len");
+     - Sync() takes the client's callLock: a Sync requested while a mutation
+       call is in flight is served only after that call returned;
      - RemoteHello overwrites mTime / queueTick / machTick / sum of the
-       existing lastPushData object and keeps its checksum; the client's
-       HandshakeDone sets machine tick 0 (switch [p_hello_m]).
+       existing lastPushData object and keeps its checksum; the switches
+       [p_hello_m] / [p_sync_m] say whether the client takes the machine tick
+       from the Hello / from the Sync response (probed on the real code).
 
    A Go panic (nil tracerData, index out of range in a handler goroutine)
    is the sticky flag [st_err]. Proof-free on purpose. *)
@@ -65,7 +69,7 @@ Record client := {
   cl_t : list N;
   cl_q : N;
   cl_m : N;
-  cl_stuck : bool;                (* read loop blocked forever *)
+  cl_stuck : bool;                (* read loop blocked forever (never set since 4b9897e) *)
   cl_need : bool;                 (* a Sync request is outstanding *)
   cl_errs : nat                   (* "wrong clock len" errors *)
 }.
@@ -78,12 +82,12 @@ Record st := {
   st_cur : snap;                  (* the source now *)
   st_err : bool;                  (* a panic *)
   (* bookkeeping for the evaluation (no influence on the run) *)
-  st_silent : bool;               (* a push consumed a snapshot without sending *)
-  st_rejpush : bool;              (* a pushed diff was rejected (and ignored) *)
+  st_silent : bool;               (* old code only: a push consumed a snapshot without sending *)
+  st_rejpush : bool;              (* a pushed diff was rejected (a Sync was requested) *)
   st_synced : bool;               (* a full Sync response was applied or refused *)
   st_npush : nat;                 (* pushClient runs that reached storeLastPush *)
   st_conn : bool;                 (* the server has a handshaken client *)
-  st_initpush : bool              (* a push consumed the placeholder dataLatest of NewServer *)
+  st_initpush : bool              (* old code only: the placeholder dataLatest was pushed *)
 }.
 
 Inductive ev :=
@@ -194,13 +198,16 @@ Definition do_push (p : pcfg) (s : st) : st :=
   match sv_latest v with
   | None => s
   | Some data =>
+    match d_mtime data with
+    | None => s    (* the placeholder is never exported. old code: exported, set_initpush *)
+    | Some _ =>
     if (d_sum (sv_last v) =? d_sum data) && (d_q (sv_last v) =? d_q data) then s
     else
-      let s0 := match d_mtime data with None => set_initpush s | Some _ => s end in
-      let s1 := set_flags s0 (st_silent s) (st_rejpush s) (st_synced s) (S (st_npush s)) in
+      let s1 := set_flags s (st_silent s) (st_rejpush s) (st_synced s) (S (st_npush s)) in
       if p_mut p then
-        (* pushUpdateMutations(tracer.DataQueue()): dataLatest := nil *)
-        let v' := mk_server data None (sv_queue v) in
+        (* pushUpdateMutations(tracer.DataQueue()): dataLatest := nil, dataQueue
+           := nil. old code: the queue was kept *)
+        let v' := mk_server data None [] in
         match calc_update_muts (p_codec p) (sv_queue v) (sv_last v) with
         | None => set_sv s1 v'                       (* panic recovered by PanicToErr *)
         | Some [] => set_sv s1 v'
@@ -211,11 +218,11 @@ Definition do_push (p : pcfg) (s : st) : st :=
         match calc_upd p data (sv_last v) with
         | None => set_sv s1 v'                       (* panic recovered by PanicToErr *)
         | Some u =>
-          match u_idx u with
-          | [] => set_flags (set_sv s1 v') true (st_rejpush s) (st_synced s) (S (st_npush s))
-          | _ => set_wire (set_sv s1 v') (st_wire s ++ [WPush u])
-          end
+          (* sent even without indexes. old code: u_idx u = [] => nothing sent,
+             lastPushData still stored (st_silent) *)
+          set_wire (set_sv s1 v') (st_wire s ++ [WPush u])
         end
+    end
   end.
 
 (* Remote{Add,Remove,Set} after the source mutation: newMsgMutation *)
@@ -228,7 +235,8 @@ Definition do_reply (p : pcfg) (s : st) : st :=
       match sv_latest v with
       | None => set_err s             (* lastPushData := nil; next export panics *)
       | Some data =>
-        set_pend (set_sv s (mk_server data None (sv_queue v))) (Some (RMuts us))
+        (* DataQueue(): flushed. old code: mk_server data None (sv_queue v) *)
+        set_pend (set_sv s (mk_server data None [])) (Some (RMuts us))
       end
     end
   else
@@ -247,10 +255,18 @@ Definition do_write (s : st) : st :=
   | Some r => set_pend (set_wire s (st_wire s ++ [WReply r])) None
   end.
 
-(* RemoteSync *)
+(* a client-issued mutation holds the client's callLock from the request to
+   the processing of its reply *)
+Definition call_in_flight (s : st) : bool :=
+  match st_pend s with
+  | Some _ => true
+  | None => existsb (fun m => match m with WReply _ => true | _ => false end) (st_wire s)
+  end.
+
+(* Client.Sync (behind callLock) + RemoteSync *)
 Definition do_sync_serve (p : pcfg) (s : st) : st :=
   let c := st_cl s in
-  if cl_need c && negb (cl_stuck c)
+  if cl_need c && negb (cl_stuck c) && negb (call_in_flight s)
   then set_cl (set_wire s (st_wire s ++ [WSync (s_time (st_cur s)) (s_q (st_cur s))
                                            (if p_sync_m p then s_m (st_cur s) else 0)]))
               (mk_client (cl_t c) (cl_q c) (cl_m c) (cl_stuck c) false (cl_errs c))
@@ -309,16 +325,19 @@ Definition do_deliver (p : pcfg) (s : st) : st :=
     | WPush u =>
       match cl_update p c u with
       | None => set_err s'
-      | Some (c', acc) =>
-        set_flags (set_cl s' c') (st_silent s) (st_rejpush s || negb acc) (st_synced s) (st_npush s)
+      | Some (c', true) => set_cl s' c'
+      | Some (c', false) =>
+        (* go c.Sync(). old code: the result was ignored (no cl_set_need) *)
+        set_flags (set_cl s' (cl_set_need c' true)) (st_silent s) true (st_synced s) (st_npush s)
       end
     | WMuts us =>
       match cl_update_muts p c us with
       | None => set_err s'
       | Some (c', true) => set_cl s' c'
       | Some (c', false) =>
-        (* Sync() inside the blocking read loop *)
-        set_flags (set_cl s' (cl_set_stuck c')) (st_silent s) true (st_synced s) (st_npush s)
+        (* go c.Sync(). old code: Sync() inside the blocking read loop, the
+           read loop was dead from then on (cl_set_stuck c') *)
+        set_flags (set_cl s' (cl_set_need c' true)) (st_silent s) true (st_synced s) (st_npush s)
       end
     | WReply (RUpd u) =>
       match cl_update p c u with
